@@ -156,6 +156,9 @@ def seqfun_pop_fact(it, T, h, tl):
     for (name, T2) in it.ctx.__dict__.get("duepred_apps", []):
         if T2.eq(T):
             _duepred_unfold(it, name, T, h, tl)
+    for (cmp, T2, key) in it.ctx.__dict__.get("match_apps", []):
+        if T2.eq(T):
+            _match_unfold(it, cmp, T, key, h, tl)
 
 
 # functions of delay's queue: records (notification, due) = tup2(tup2(int2val(kind), payload), int2val(due)); kind 1 = element,
@@ -1219,7 +1222,64 @@ def _dict(it, args, kw):
 
 def _enumerate(it, args, kw):
     start = args[1] if len(args) > 1 else kw.get("start", 0)
+    src = args[0]
+    if isinstance(src, ListObj) and src.symbolic and start == 0:
+        # enumerate over a symbolic list: usable as the iterable of a for-loop that has a loop contract
+        return ListObj(term=src.term, elem="enum:" + src.elem)
     return ListObj([(start + i, x) for i, x in enumerate(it.iterate(args[0]))])
+
+
+# "does a stored key match?" - the scan of distinct's lookup list with a user comparer that may raise:
+#   match_code(T, key) = 0 no stored key matches, 1 the first decisive key matches, 2 the comparer raises before any key matched
+#   match_exc(T, key)  = what it raises (when the code is 2)
+# defined by head/tail with the SAME uninterpreted symbols the comparer's calls use; ground unfolding as for SEQFUNS
+def _match_syms(cmpname):
+    return (z3.Function(f"match_code[{cmpname}]", smt.SeqVal, smt.Val, z3.IntSort()),
+            z3.Function(f"match_exc[{cmpname}]", smt.SeqVal, smt.Val, smt.Val))
+
+
+def _cmp_terms(it, cmp, a, key):
+    """(truth, raises, exc) of comparer(a, key) as terms"""
+    if isinstance(cmp, Opaque) and cmp.kind == "callback":
+        f = z3.Function(f"{cmp.name}/2", smt.Val, smt.Val, smt.Val)
+        fr = z3.Function(f"{cmp.name}_raises/2", smt.Val, smt.Val, z3.BoolSort())
+        fe = z3.Function(f"{cmp.name}_exc/2", smt.Val, smt.Val, smt.Val)
+        raises = fr(a, key) if cmp.attrs.get("may_raise", True) else z3.BoolVal(False)
+        return smt.truthy(f(a, key)), raises, fe(a, key)
+    if isinstance(cmp, Closure) and cmp.qualname == "default_comparer":
+        return smt.py_eq(a, key), z3.BoolVal(False), smt.NONE  # `x == y` of user values: their own (uninterpreted) equality
+    raise Unsupported(f"match_code: comparer {cmp!r}")
+
+
+def cmp_name(cmp):
+    return cmp.name if isinstance(cmp, Opaque) else "default"
+
+
+def _match_unfold(it, cmp, T, key, h=None, tl=None):
+    M, ME = _match_syms(cmp_name(cmp))
+    n = z3.Length(T)
+    if h is None:
+        h, tl = T[0], z3.Extract(T, 1, n - 1)
+        nonempty = n > 0
+        it.ctx.assume(z3.Implies(n == 0, M(T, key) == 0))
+    else:
+        nonempty = z3.BoolVal(True)
+    truth, raises, exc = _cmp_terms(it, cmp, h, key)
+    it.ctx.assume(z3.Implies(nonempty, z3.And(
+        M(T, key) == z3.If(raises, 2, z3.If(truth, 1, M(tl, key))),
+        z3.Implies(z3.And(z3.Not(raises), z3.Not(truth)), ME(T, key) == ME(tl, key)),
+        z3.Implies(raises, ME(T, key) == exc))))
+
+
+def match_apply(it, cmp, T, key):
+    apps = it.ctx.__dict__.setdefault("match_apps", [])
+    if not any(k[0] is cmp and k[1].eq(T) and k[2].eq(key) for k in apps):
+        apps.append((cmp, T, key))
+        _match_unfold(it, cmp, T, key)
+        for (T2, h, tl) in it.ctx.__dict__.get("seqfun_pops", []):
+            if T2.eq(T):
+                _match_unfold(it, cmp, T, key, h, tl)
+    return _match_syms(cmp_name(cmp))
 
 
 def _zip(it, args, kw):
